@@ -126,6 +126,20 @@ QueryLiveOk(id, rx, rw, len, obs, st) ==
   /\ lastFree' = 0
   /\ UNCHANGED <<live, opts, prevRes>>
 
+(* jitallocator.h: "Queries information about an allocated memory block that contains the given rx" - a pointer *)
+(* inside a live span must be matched; the span handed back lies inside that live span, contains the pointer  *)
+(* and its two views alias the same memory (which part of the span is reported is left open).                 *)
+QueryInteriorOk(id, off, rx, rw, len, obs, st) ==
+  /\ id \in Ids
+  /\ off >= 0 /\ off < live[id].len
+  /\ rx >= live[id].rx /\ rx <= live[id].rx + off
+  /\ rx + len > live[id].rx + off /\ rx + len <= live[id].rx + live[id].len
+  /\ rw - live[id].rw = rx - live[id].rx
+  /\ obs.intact
+  /\ StatsOK(live, st)
+  /\ lastFree' = 0
+  /\ UNCHANGED <<live, opts, prevRes>>
+
 QueryForeignRefused(obs, st) ==
   /\ ~obs.nonnull                     \* no span is handed back
   /\ StatsOK(live, st)
